@@ -111,6 +111,36 @@ Proof.
   - intros H e Hin. destruct (enxt e) as [a|] eqn:Ea; [|reflexivity]. apply Z.ltb_lt. eapply H; eassumption.
 Qed.
 
+Lemma gone_spec (R : rstate sched) (jobs : list (Z * Z)) :
+  forallb (fun j => negb (existsb (Z.eqb (fst j)) (rgone R))) jobs = true <->
+  (forall i c, In (i, c) jobs -> ~ In i (rgone R)).
+Proof.
+  rewrite forallb_forall. split.
+  - intros H i c Hin Hg. specialize (H _ Hin). cbn [fst] in H. apply negb_true_iff in H.
+    assert (Ht : existsb (Z.eqb i) (rgone R) = true).
+    { apply existsb_exists. exists i. split; [exact Hg|apply Z.eqb_refl]. }
+    congruence.
+  - intros H [i c] Hin. cbn [fst]. apply negb_true_iff.
+    destruct (existsb (Z.eqb i) (rgone R)) eqn:E; [|reflexivity].
+    exfalso. apply existsb_exists in E as [x [Hx Heq]]. apply Z.eqb_eq in Heq. subst x.
+    exact (H i c Hin Hx).
+Qed.
+
+Lemma snap_gone_spec (R : rstate sched) (l : list (Z * option Z * option Z)) :
+  forallb (fun x => negb (existsb (Z.eqb (fst (fst x))) (rgone R))) l = true <->
+  (forall i n p, In (i, n, p) l -> ~ In i (rgone R)).
+Proof.
+  rewrite forallb_forall. split.
+  - intros H i n p Hin Hg. specialize (H _ Hin). cbn [fst] in H. apply negb_true_iff in H.
+    assert (Ht : existsb (Z.eqb i) (rgone R) = true).
+    { apply existsb_exists. exists i. split; [exact Hg|apply Z.eqb_refl]. }
+    congruence.
+  - intros H [[i n] p] Hin. cbn [fst]. apply negb_true_iff.
+    destruct (existsb (Z.eqb i) (rgone R)) eqn:E; [|reflexivity].
+    exfalso. apply existsb_exists in E as [x [Hx Heq]]. apply Z.eqb_eq in Heq. subst x.
+    exact (H i n p Hin Hx).
+Qed.
+
 Ltac bad_out :=
   let H := fresh "H" in
   split; [intros [_ H]; discriminate H
@@ -125,7 +155,14 @@ Proof.
   destruct o as [[ev out] jobs].
   destruct ev; cbn [oracle_obs spec_obs]; try apply nil_b_spec.
   - (* Wake *)
-    rewrite andb_true_iff, (permb_spec Z.eqb Z.eqb_eq), early_spec. reflexivity.
+    rewrite !andb_true_iff, (permb_spec Z.eqb Z.eqb_eq), early_spec, gone_spec.
+    destruct (rhalt R); cbn [negb orb].
+    + rewrite nil_b_spec. split.
+      * intros [[[H1 H2] H3] H4]. auto.
+      * intros [H1 [H2 [H3 H4]]]. auto.
+    + split.
+      * intros [[[H1 H2] H3] _]. split; [exact H1|]. split; [exact H2|]. split; [exact H3|discriminate].
+      * intros [H1 [H2 [H3 _]]]. auto.
   - (* Added *)
     rewrite andb_true_iff, nil_b_spec. destruct out; try bad_out.
     rewrite fresh_b_spec. split.
@@ -133,9 +170,11 @@ Proof.
     + intros [-> [id' [nx' [Heq H]]]]. inversion Heq; subst. auto.
   - (* Snapshot *)
     rewrite andb_true_iff, nil_b_spec. destruct out; try bad_out.
-    rewrite (permb_spec trip_eqb trip_eqb_spec). split.
-    + intros [-> H]. split; [reflexivity|]. eauto.
-    + intros [-> [l' [Heq H]]]. inversion Heq; subst. auto.
+    rewrite andb_true_iff, (permb_spec trip_eqb trip_eqb_spec), snap_gone_spec. split.
+    + intros [-> [H1 H2]]. split; [reflexivity|]. split; [eauto|].
+      intros l' i n p Heq. inversion Heq; subst. apply H2.
+    + intros [-> [[l' [Heq H1]] H2]]. inversion Heq; subst. split; [reflexivity|].
+      split; [exact H1|]. intros i n p. apply (H2 l' i n p eq_refl).
   - (* Stop *)
     rewrite andb_true_iff, nil_b_spec. destruct out; try bad_out.
     rewrite Bool.eqb_true_iff. split.
@@ -148,9 +187,11 @@ Proof.
     + intros [-> [id' [Heq H]]]. inversion Heq; subst. auto.
   - (* EntriesIdle *)
     rewrite andb_true_iff, nil_b_spec. destruct out; try bad_out.
-    rewrite (permb_spec trip_eqb trip_eqb_spec). split.
-    + intros [-> H]. split; [reflexivity|]. eauto.
-    + intros [-> [l' [Heq H]]]. inversion Heq; subst. auto.
+    rewrite andb_true_iff, (permb_spec trip_eqb trip_eqb_spec), snap_gone_spec. split.
+    + intros [-> [H1 H2]]. split; [reflexivity|]. split; [eauto|].
+      intros l' i n p Heq. inversion Heq; subst. apply H2.
+    + intros [-> [[l' [Heq H1]] H2]]. inversion Heq; subst. split; [reflexivity|].
+      split; [exact H1|]. intros i n p. apply (H2 l' i n p eq_refl).
   - (* StopIdle *)
     rewrite andb_true_iff, nil_b_spec. destruct out; try bad_out.
     rewrite Bool.eqb_true_iff. split.
